@@ -28,3 +28,6 @@ Print Assumptions C02_new_is_from_total.
 Check C02_new_value : forall nt, fin nt -> 0 < R_ nt <= bpow radix2 43 ->
   Rabs (theta (from_total nt) - R_ nt) <= R_ eps10 + / 4503599627370496.
 Print Assumptions C02_new_value.
+Check C02_fast_path_negative : forall d, (- 2 ^ 50 < d < 0)%Z ->
+  new (of_Z d) two = {| rem := zero; blade := d + 4 * ((- d + 6) / 4) |}.
+Print Assumptions C02_fast_path_negative.
